@@ -52,7 +52,7 @@ def main() -> int:
     theorems = getattr(mod, "THEOREMS_BY_PROP", {}).get(args.prop) or mod.THEOREMS
     run = core.Run(args.prop, args.tier, seed, theorems)
     try:
-        run.proof = core.proof_obligations(theorems)
+        run.proof = core.proof_obligations(theorems, args.tier)
         if hasattr(mod, "run_prop"):
             mod.run_prop(args.prop, run)
         else:
